@@ -5,7 +5,7 @@ from .. import core, gen, impl_thr, scen
 from . import c01, c08
 
 ID = "C09"
-BUDGET = {"quick": 600, "thorough": 60000}
+BUDGET = {"quick": 2400, "thorough": 300000}
 RULE = ("two scenario kinds. (a) acceptance: lists of 2-5 minutely/hourly/daily/weekly entries with per-entry offsets, with pairs "
         "constructed to be equivalent (time and offset shifted together by multiples and non-multiples of the period, across day/"
         "weekday boundaries, differing only in ignored hour/minute fields) or near-equivalent (+-1us); Spec: accepted iff the "
